@@ -19,12 +19,21 @@ impl Engine for Msim {
     }
 
     fn rule(prop: &str) -> String {
+        let common = "case = pool config (max_size, queue mode, 0-2 sync/async hooks per kind) + per-call fault script (ok / error / panic / gated / never) + history of pool operations with optional thread-level pauses at schedule points; distinct by hash of the whole case. Non-trivial: ";
         let r = match prop {
-            "C01" => "case = pool config + fault script + history of pool operations with optional thread-level pauses; non-trivial: at some instant live objects + creates in progress == max_size >= 1 and the case contains a fault, a cancellation or a pause that another step ran under; distinct by hash of the whole case",
-            "C02" => "non-trivial: at least one failing / cancelled / panicking get and the pool was later driven to max_size concurrent objects or had a waiter at a quiescent point; distinct by hash of the whole case",
-            "C11" => "non-trivial: a rest point (no operation in progress) was reached after a failure, cancellation, take, retain, resize or close; distinct by hash of the whole case",
-            _ => "non-trivial: see DESIGN.md section 6; distinct by hash of the whole case",
+            "C01" => "at some instant live objects + creates in progress == max_size >= 1 and the case contains a fault, a cancellation or a pause that another step ran under",
+            "C02" => "at least one failing / cancelled / panicking get and the pool was later driven to max_size concurrent objects or had a waiter at a quiescent point",
+            "C03" => "a get() was abandoned (future dropped or injected panic) while suspended at an await point other than the slot wait, or at the slot wait with another caller inside get() or holding an object",
+            "C04" => "a get() that went through at least one rejected idle object (then succeeded or returned an error)",
+            "C06" => "close() overlapped another operation (pause) or met at least one waiter or idle object, and further steps followed it",
+            "C07" => "a shrink with objects out or getters in flight, a grow with parked waiters, or a shrink followed by a grow",
+            "C08" => "a get() offered an idle object while the reference idle queue held at least 2 objects",
+            "C09" => "a retain that removes a proper non-empty subset, a take followed by a successful get, or an idle object released by a shrink or close",
+            "C11" => "a rest point (no operation in progress) was reached after a failure, cancellation, take, retain, resize or close",
+            "C13" => "some object was handed out at least 3 times",
+            _ => "see DESIGN.md section 6",
         };
+        let r = format!("{}{}", common, r);
         r.to_string()
     }
 
